@@ -6,22 +6,36 @@ From Ivv Require Import Core.Kernel Core.CoreTypes Core.CoreFd Core.CoreModel Co
   Core.CoreInvTm Core.CoreInvLoop Core.CoreInv
   Core.CorePhase2K1Base Core.CorePhase2K1Fd Core.CorePhase2K1Act Core.CorePhase2K1Inv Core.CorePhase2K1Loop
   Core.CorePhase2TimeMon Core.CorePhase2TimeFr Core.CorePhase2TimeT1
-  Core.CorePhase2TimeR3K Core.CorePhase2TimeR3 Core.CorePhase2TimeR3A.
+  Core.CorePhase2TimeR3K Core.CorePhase2TimeR3 Core.CorePhase2TimeR3A Core.CorePhase2FdBase Core.CorePhase2FdMon Core.CorePhase2FdStep.
 From Ivv Require Timer.HeapModel Timer.HeapSpec Timer.HeapProofs Timer.HeapBase Timer.HeapFacts Timer.HeapUnreg.
 Import ListNotations.
 Local Open Scope Z_scope.
 
-Definition IR (s : core) : Prop := InvW s /\ R3 s.
+Definition IR (s : core) : Prop := InvW s /\ R3 s /\ KX (kern s).
 Definition QI (r : res) : Prop := ARes IR r.
 
-Lemma QI_of : forall s r, PK s r -> Q3r r -> QI r.
-Proof. intros s r P Q. destruct r; cbn [QI ARes Q3r] in *; [|exact I]. unfold PK in P. cbn [ARes] in P. split; [apply P|exact Q]. Qed.
+Lemma QI_of : forall s r, PK s r -> Q3r r -> KX (kern (res_state r)) -> QI r.
+Proof.
+  intros s r P Q K. destruct r; cbn [QI ARes Q3r res_state] in *; [|exact I]. unfold PK in P. cbn [ARes] in P.
+  split; [apply P|split; [exact Q|exact K]].
+Qed.
 
-Lemma QI_bind : forall r f, QI r -> (forall s1, InvW s1 -> R3 s1 -> QI (f s1)) -> QI (bind r f).
+Lemma QI_bind : forall r f, QI r -> (forall s1, InvW s1 -> R3 s1 -> KX (kern s1) -> QI (f s1)) -> QI (bind r f).
 Proof. intros r f Q K. destruct r as [s1|s1]; cbn [bind QI ARes] in *; [apply K; apply Q|exact I]. Qed.
 
-Lemma QI_same : forall s, InvW s -> R3 s -> QI (R s).
-Proof. intros s A B. split; assumption. Qed.
+Lemma QI_same : forall s, InvW s -> R3 s -> KX (kern s) -> QI (R s).
+Proof. intros s A B C. split; [exact A|split; assumption]. Qed.
+
+Lemma InvW_UF : forall s, InvW s -> UF s.
+Proof. intros s I k K. apply (fv_user _ _ (iw_fd _ I) k K). Qed.
+
+Lemma do_action_KX : forall s a, wf_action a -> UF s -> KX (kern s) -> KX (kern (res_state (do_action s a))).
+Proof.
+  intros s a W U K. destruct (do_action_st s a W U) as [E|(s0 & L & [[T _]|[T _]] & _)].
+  - rewrite E. exact K.
+  - apply (st_kx _ _ _ _ T). rewrite (lg_kern _ _ _ L). exact K.
+  - apply (st_kx _ _ _ _ T). rewrite (lg_kern _ _ _ L). exact K.
+Qed.
 
 Lemma R3_emit_plain : forall s e, R3 s ->
   match e with TAct _ | TCallRaw _ => False | _ => True end -> R3 (emit s e).
@@ -35,28 +49,29 @@ Hypothesis WF : wf_scenario sc.
 Let dok := CoreInv.do_action_ok.
 Let Hh := wf_handlers sc WF.
 
-Lemma do_action_QI : forall s a, InvW s -> R3 s -> wf_action a -> QI (do_action s a).
+Lemma do_action_QI : forall s a, InvW s -> R3 s -> KX (kern s) -> wf_action a -> QI (do_action s a).
 Proof.
-  intros s a I R W. apply (QI_of s); [apply (do_action_K dok); assumption|apply do_action_R3; assumption].
+  intros s a I R K W. apply (QI_of s); [apply (do_action_K dok); assumption|apply do_action_R3; assumption|].
+  apply do_action_KX; [exact W|apply InvW_UF; exact I|exact K].
 Qed.
 
-Lemma run_acts_QI : forall l s, InvW s -> R3 s -> Forall wf_action l -> QI (run_acts s l).
+Lemma run_acts_QI : forall l s, InvW s -> R3 s -> KX (kern s) -> Forall wf_action l -> QI (run_acts s l).
 Proof.
-  induction l as [|a l IH]; intros s I R W; cbn [run_acts]; [apply QI_same; assumption|].
-  inversion W as [|? ? W1 W2]; subst. apply QI_bind; [apply do_action_QI; assumption|]. intros s1 I1 R1. apply IH; assumption.
+  induction l as [|a l IH]; intros s I R K W; cbn [run_acts]; [apply QI_same; assumption|].
+  inversion W as [|? ? W1 W2]; subst. apply QI_bind; [apply do_action_QI; assumption|]. intros s1 I1 R1 K1. apply IH; assumption.
 Qed.
 
-Lemma run_script_QI : forall s key, InvW s -> R3 s -> QI (run_script sc s key).
+Lemma run_script_QI : forall s key, InvW s -> R3 s -> KX (kern s) -> QI (run_script sc s key).
 Proof.
-  intros s key I R. unfold run_script. pose proof (Hh key) as F.
+  intros s key I R K. unfold run_script. pose proof (Hh key) as F.
   destruct (sc_handlers sc key) as [|l0 ls] eqn:E; [apply QI_same; assumption|].
-  apply run_acts_QI; [apply InvW_set_invoc; exact I|apply (R3_same s _ R); reflexivity|].
+  apply run_acts_QI; [apply InvW_set_invoc; exact I|apply (R3_same s _ R); reflexivity|exact K|].
   apply Forall_nth_d; [exact F|constructor].
 Qed.
 
-Lemma events_loop_QI : forall fuel s, InvW s -> R3 s -> QI (events_loop sc fuel s).
+Lemma events_loop_QI : forall fuel s, InvW s -> R3 s -> KX (kern s) -> QI (events_loop sc fuel s).
 Proof.
-  induction fuel as [|f IH]; intros s I R; cbn [events_loop]; destruct (ev_batch s) as [|ie rest] eqn:E;
+  induction fuel as [|f IH]; intros s I R K; cbn [events_loop]; destruct (ev_batch s) as [|ie rest] eqn:E;
     try (apply QI_same; assumption); try exact Logic.I.
   cbv zeta. set (s1 := set_evlists s (ev_pending s) rest).
   assert (I1 : InvW s1).
@@ -65,19 +80,19 @@ Proof.
     - pose proof (ev_nodup _ (iw_ev _ I)) as ND. rewrite E in ND. apply NoDup_remove_1 in ND. assumption. }
   assert (I2 : InvW (emit s1 (TCallEvent ie))) by (apply InvW_emit; [assumption|discriminate..]).
   assert (R2 : R3 (emit s1 (TCallEvent ie))) by (apply R3_emit_plain; [apply (R3_same s s1 R); reflexivity|exact Logic.I]).
-  apply QI_bind; [apply run_script_QI; assumption|]. intros s2 I2' R2'.
+  apply QI_bind; [apply run_script_QI; assumption|]. intros s2 I2' R2' K2'.
   destruct rest; [apply QI_same; assumption|apply IH; assumption].
 Qed.
 
-Lemma run_pending_events_QI : forall s, InvW s -> R3 s -> QI (run_pending_events sc s).
+Lemma run_pending_events_QI : forall s, InvW s -> R3 s -> KX (kern s) -> QI (run_pending_events sc s).
 Proof.
-  intros s I R. unfold run_pending_events. destruct (ev_pending s) as [|p0 p] eqn:E; [apply QI_same; assumption|].
+  intros s I R K. unfold run_pending_events. destruct (ev_pending s) as [|p0 p] eqn:E; [apply QI_same; assumption|].
   set (s1 := set_evlists s [] (p0 :: p)).
   assert (I1 : InvW s1).
   { apply InvW_evlists; [assumption| |].
     - intros j J. rewrite E. apply in_or_app. left. exact J.
     - pose proof (ev_nodup _ (iw_ev _ I)) as ND. rewrite E in ND. apply NoDup_app_l in ND. exact ND. }
-  apply events_loop_QI; [exact I1|apply (R3_same s s1 R); reflexivity].
+  apply events_loop_QI; [exact I1|apply (R3_same s s1 R); reflexivity|exact K].
 Qed.
 
 (* reading a descriptor *)
@@ -96,17 +111,18 @@ Proof.
     first [rewrite k_get_put, Z.eqb_refl in G | rewrite G0 in G]; inversion G; subst; cbn [vcnt with_cnt with_timer]; lia.
 Qed.
 
-Lemma raw_got_event_QI : forall s j, InvW s -> R3 s -> rw_reg s j = true -> QI (raw_got_event sc s j).
+Lemma raw_got_event_QI : forall s j, InvW s -> R3 s -> KX (kern s) -> rw_reg s j = true -> QI (raw_got_event sc s j).
 Proof.
-  intros s j I R RJ. unfold raw_got_event. cbv zeta.
+  intros s j I R K RJ. unfold raw_got_event. cbv zeta.
   set (toread := if efd_raw s =? 0 then 1024 else 8).
   pose proof (raw_got_event_K sc WF dok s j I RJ) as PKK. unfold raw_got_event in PKK. cbv zeta in PKK. fold toread in PKK.
   pose proof (kstable_read (kern s) (rw_rfd s j) toread) as KS.
   pose proof (CNTx_read (kern s) (rw_rfd s j) toread) as CR.
   pose proof (read_err_same (kern s) (rw_rfd s j) toread) as RE.
   pose proof (read_nonneg (kern s) (rw_rfd s j) toread) as RN.
+  pose proof (KX_read (kern s) (rw_rfd s j) toread K) as KR.
   pose proof (dy_range _ (iw_dyn _ I) j RJ) as JR.
-  destruct (k_read (kern s) (rw_rfd s j) toread) as [k1 [n|e]]; cbn [fst] in KS, CR, RN.
+  destruct (k_read (kern s) (rw_rfd s j) toread) as [k1 [n|e]]; cbn [fst] in KS, CR, RN, KR.
   - destruct (n =? 0); [exact Logic.I|].
     set (s1 := set_kern s k1) in *.
     assert (I1 : InvW s1) by (apply InvW_kstable; assumption).
@@ -117,14 +133,14 @@ Proof.
     { intros j' J' RG N. destruct (raw_facts s j' I RG) as (L & EX & _).
       split; [exact RG|]. split; [reflexivity|]. split; [exact L|]. split; [apply (raw_distinct s j' j I RG RJ N)|exact EX]. }
     destruct (Z.eqb_spec j KICK_RAW) as [EK|NK].
-    + apply run_pending_events_QI; [exact I1|].
+    + apply run_pending_events_QI; [exact I1| |exact KR].
       apply (R3_upd (fun x => x = rw_rfd s j) s s1 R CR).
       * intros j' J' A. apply (r3_reg _ R j' J' A).
       * intros j' J' RG. left. assert (N : j' <> j) by (unfold r16, KICK_RAW in *; lia).
         destruct (OTH j' J' RG N) as (A1 & A2 & A3 & A4 & A5). repeat split; auto.
     + assert (J16 : r16 j) by (unfold r16, KICK_RAW in *; lia).
       assert (I2 : InvW (emit s1 (TCallRaw j))) by (apply InvW_emit; [exact I1|discriminate..]).
-      apply run_script_QI; [exact I2|].
+      apply run_script_QI; [exact I2| |exact KR].
       assert (M : a_rwp (mst (emit s1 (TCallRaw j))) = upd (a_rwp (mst s)) j false) by (rewrite mst_emit, a_rwp_step; reflexivity).
       apply (R3_upd (fun x => x = rw_rfd s j) s (emit s1 (TCallRaw j)) R CR).
       * intros j' J' A. rewrite M in A. unfold upd in A. destruct (Z.eqb_spec j' j); [discriminate A|apply (r3_reg _ R j' J' A)].
@@ -136,16 +152,16 @@ Proof.
            rewrite M. unfold upd. destruct (Z.eqb_spec j' j); [contradiction|auto].
   - destruct e; try exact Logic.I. rewrite (RE k1 EAGAIN eq_refl). cbn [QI ARes]. split.
     + rewrite (RE k1 EAGAIN eq_refl) in KS. apply InvW_kstable; assumption.
-    + apply (R3_same s _ R); reflexivity.
+    + split; [apply (R3_same s _ R); reflexivity|exact K].
 Qed.
 
-Lemma call_fd_QI : forall s k band h, InvW s -> R3 s -> registered (fdt s k) = true -> hsel (fdt s k) h ->
+Lemma call_fd_QI : forall s k band h, InvW s -> R3 s -> KX (kern s) -> registered (fdt s k) = true -> hsel (fdt s k) h ->
   QI (call_fd sc s k band h).
 Proof.
-  intros s k band h I R RG HS. unfold call_fd. destruct h as [hid|]; [|apply QI_same; assumption].
+  intros s k band h I R K RG HS. unfold call_fd. destruct h as [hid|]; [|apply QI_same; assumption].
   pose proof (fv_range _ _ (iw_fd _ I) k RG) as RNG.
   assert (RUN : QI (run_script sc (emit s (TCallFd k band hid (cookie (getfd s k)))) hid)).
-  { apply run_script_QI; [apply InvW_emit; [exact I|discriminate..]|apply R3_emit_plain; [exact R|exact Logic.I]]. }
+  { apply run_script_QI; [apply InvW_emit; [exact I|discriminate..]|apply R3_emit_plain; [exact R|exact Logic.I]|exact K]. }
   destruct (Z_lt_ge_dec k 16) as [U|D].
   - destruct (dy_userh _ (iw_dyn _ I) k ltac:(lia)) as (A & B & C).
     assert (0 <= hid < 16) by (destruct HS as [Q|[Q|Q]]; symmetry in Q; [apply A|apply B|apply C]; assumption).
@@ -160,22 +176,22 @@ Proof.
     replace (1000 + j - 1000) with j by lia. apply raw_got_event_QI; assumption.
 Qed.
 
-Lemma guarded_call_QI : forall s k (b : bool) band (sel : fdo -> option Z), InvW s -> R3 s ->
+Lemma guarded_call_QI : forall s k (b : bool) band (sel : fdo -> option Z), InvW s -> R3 s -> KX (kern s) ->
   (handled s = Some k \/ handled s = None) -> (forall f, hsel f (sel f)) ->
   QI (match handled s with
       | Some _ => if b then call_fd sc s k band (sel (getfd s k)) else R s
       | None => R s
       end).
 Proof.
-  intros s k b band sel I R H SEL.
+  intros s k b band sel I R K H SEL.
   destruct (handled s) as [k'|] eqn:E; [|apply QI_same; assumption].
   destruct H as [H|H]; [|discriminate]. injection H as ->. destruct b; [|apply QI_same; assumption].
-  apply call_fd_QI; [exact I|exact R|apply (handled_reg _ _ I E)|apply SEL].
+  apply call_fd_QI; [exact I|exact R|exact K|apply (handled_reg _ _ I E)|apply SEL].
 Qed.
 
-Lemma dispatch_active_QI : forall fuel s, InvW s -> R3 s -> QI (dispatch_active sc fuel s).
+Lemma dispatch_active_QI : forall fuel s, InvW s -> R3 s -> KX (kern s) -> QI (dispatch_active sc fuel s).
 Proof.
-  induction fuel as [|f IH]; intros s I RR; cbn [dispatch_active]; destruct (active s) as [|k rest] eqn:E;
+  induction fuel as [|f IH]; intros s I RR KK; cbn [dispatch_active]; destruct (active s) as [|k rest] eqn:E;
     try (apply QI_same; assumption); try exact Logic.I.
   cbv zeta. set (s1 := set_handled (set_active s rest) (Some k)).
   pose proof (iw_fd _ I) as FI.
@@ -196,31 +212,31 @@ Proof.
     - cbn [okr]. split; [apply StepT_refl; assumption|left; assumption]. }
   assert (K1 : QI (if has (ready (getfd s1 k)) M_ERR then call_fd sc s1 k 2 (h_err (getfd s1 k)) else R s1)).
   { destruct (has (ready (getfd s1 k)) M_ERR); [|apply QI_same; assumption].
-    apply call_fd_QI; [exact I1|exact R1|exact RG1|right; right; reflexivity]. }
+    apply call_fd_QI; [exact I1|exact R1|exact KK|exact RG1|right; right; reflexivity]. }
   destruct (if has (ready (getfd s1 k)) M_ERR then call_fd sc s1 k 2 (h_err (getfd s1 k)) else R s1) as [s2|s2];
     unfold QI in *; cbn [bind okr ARes] in *; [|exact Logic.I].
-  destruct P1 as [_ H2], K1 as [I2 R2].
+  destruct P1 as [_ H2], K1 as (I2 & R2 & K2').
   (* input band *)
   pose proof (guarded_call sc Hh dok s2 k (has (ready (getfd s2 k)) M_IN) 0 h_in I2 H2 ltac:(intros; left; reflexivity)) as P2.
-  pose proof (guarded_call_QI s2 k (has (ready (getfd s2 k)) M_IN) 0 h_in I2 R2 H2 ltac:(intros; left; reflexivity)) as K2.
+  pose proof (guarded_call_QI s2 k (has (ready (getfd s2 k)) M_IN) 0 h_in I2 R2 K2' H2 ltac:(intros; left; reflexivity)) as K2.
   destruct (match handled s2 with
             | Some _ => if has (ready (getfd s2 k)) M_IN then call_fd sc s2 k 0 (h_in (getfd s2 k)) else R s2
             | None => R s2 end) as [s3|s3]; unfold QI in *; cbn [bind okr ARes] in *; [|exact Logic.I].
-  destruct P2 as [_ H3], K2 as [I3 R3'].
+  destruct P2 as [_ H3], K2 as (I3 & R3' & K3').
   (* output band *)
   pose proof (guarded_call sc Hh dok s3 k (has (ready (getfd s3 k)) M_OUT) 1 h_out I3 H3 ltac:(intros; right; left; reflexivity)) as P3.
-  pose proof (guarded_call_QI s3 k (has (ready (getfd s3 k)) M_OUT) 1 h_out I3 R3' H3 ltac:(intros; right; left; reflexivity)) as K3.
+  pose proof (guarded_call_QI s3 k (has (ready (getfd s3 k)) M_OUT) 1 h_out I3 R3' K3' H3 ltac:(intros; right; left; reflexivity)) as K3.
   destruct (match handled s3 with
             | Some _ => if has (ready (getfd s3 k)) M_OUT then call_fd sc s3 k 1 (h_out (getfd s3 k)) else R s3
             | None => R s3 end) as [s4|s4]; unfold QI in *; cbn [bind okr ARes] in *; [|exact Logic.I].
-  destruct P3 as [_ H4], K3 as [I4 R4].
-  apply (IH s4 I4 R4).
+  destruct P3 as [_ H4], K3 as (I4 & R4 & K4').
+  apply (IH s4 I4 R4 K4').
 Qed.
 
 (* ---------- timers ---------- *)
-Lemma timers_dispatch_QI : forall fuel s, InvW s -> R3 s -> QI (timers_dispatch sc fuel s).
+Lemma timers_dispatch_QI : forall fuel s, InvW s -> R3 s -> KX (kern s) -> QI (timers_dispatch sc fuel s).
 Proof.
-  induction fuel as [|f IH]; intros s I R; cbn [timers_dispatch]; destruct (HeapModel.batch (heap s)) as [|t rest] eqn:E;
+  induction fuel as [|f IH]; intros s I R K; cbn [timers_dispatch]; destruct (HeapModel.batch (heap s)) as [|t rest] eqn:E;
     try (apply QI_same; assumption); try exact Logic.I.
   cbv zeta.
   pose proof (HeapFacts.HeapInv_Inv _ (iw_heap _ I)) as HI.
@@ -235,12 +251,14 @@ Proof.
   assert (I3 : InvW (emit s2 (TCallTimer (Z.pos t - 1) (time s2)))) by (apply InvW_emit; [exact I2|discriminate..]).
   assert (R2 : R3 s2) by (apply R3_validate; apply (R3_same s s1 R); reflexivity).
   assert (R3' : R3 (emit s2 (TCallTimer (Z.pos t - 1) (time s2)))) by (apply R3_emit_plain; [exact R2|exact Logic.I]).
-  apply QI_bind; [apply run_script_QI; assumption|]. intros s4 I4 R4. apply IH; assumption.
+  assert (K3 : KX (kern (emit s2 (TCallTimer (Z.pos t - 1) (time s2))))).
+  { unfold s2, validate_now. destruct (time_valid s1); exact K. }
+  apply QI_bind; [apply run_script_QI; assumption|]. intros s4 I4 R4 K4. apply IH; assumption.
 Qed.
 
-Lemma run_timers_QI : forall s, InvW s -> R3 s -> Q3 s -> QI (run_timers sc s).
+Lemma run_timers_QI : forall s, InvW s -> R3 s -> KX (kern s) -> Q3 s -> QI (run_timers sc s).
 Proof.
-  intros s I R Q. unfold run_timers. destruct (HeapModel.num (heap s) =? 0); [apply QI_same; assumption|].
+  intros s I R K Q. unfold run_timers. destruct (HeapModel.num (heap s) =? 0); [apply QI_same; assumption|].
   cbv zeta. pose proof (InvW_validate s I) as I1. set (s1 := validate_now s) in *.
   assert (H1 : heap s1 = heap s) by apply heap_validate.
   destruct (HeapProofs.heap_collect_ok (heap s1) (time s1)) as (h' & C & HI' & _).
@@ -249,18 +267,19 @@ Proof.
   rewrite C. unfold lift_heap. cbn [bind].
   destruct (heap_step s1 h' I1 HI') as (I2 & N2). cbv zeta in I2, N2.
   set (s2 := set_numobjs (set_heap s1 h') _) in *.
-  apply timers_dispatch_QI; [exact I2|]. apply (R3_same s1 s2); [apply R3_validate; exact R|reflexivity..].
+  apply timers_dispatch_QI; [exact I2| |unfold s2, s1, validate_now; destruct (time_valid s); exact K].
+  apply (R3_same s1 s2); [apply R3_validate; exact R|reflexivity..].
 Qed.
 
 (* ---------- tasks ---------- *)
-Lemma tasks_loop_QI : forall fuel s, InvW s -> R3 s -> QI (tasks_loop sc fuel s).
+Lemma tasks_loop_QI : forall fuel s, InvW s -> R3 s -> KX (kern s) -> QI (tasks_loop sc fuel s).
 Proof.
-  induction fuel as [|f IH]; intros s I R; cbn [tasks_loop]; destruct (cur s) as [[|k rest]|] eqn:E;
+  induction fuel as [|f IH]; intros s I R K; cbn [tasks_loop]; destruct (cur s) as [[|k rest]|] eqn:E;
     try (apply QI_same; assumption); try exact Logic.I.
   - pose proof (tasks_loop_K sc WF dok 0 s I) as PKK. cbn [tasks_loop] in PKK. rewrite E in PKK.
-    unfold PK in PKK. cbn [ARes QI] in *. split; [apply PKK|apply (R3_same s _ R); reflexivity].
+    unfold PK in PKK. cbn [ARes QI] in *. split; [apply PKK|split; [apply (R3_same s _ R); reflexivity|exact K]].
   - pose proof (tasks_loop_K sc WF dok 1 s I) as PKK. cbn [tasks_loop] in PKK. rewrite E in PKK.
-    unfold PK in PKK. cbn [ARes QI] in *. split; [apply PKK|apply (R3_same s _ R); reflexivity].
+    unfold PK in PKK. cbn [ARes QI] in *. split; [apply PKK|split; [apply (R3_same s _ R); reflexivity|exact K]].
   - cbv zeta.
     set (s1 := set_epoch (set_numobjs (set_tasks s (tasks s) (Some rest)) (numobjs s - 1)) (epoch s) (upd (tepoch s) k (epoch s))).
     assert (C0 : curl s = k :: rest) by (unfold curl; rewrite E; reflexivity).
@@ -274,23 +293,23 @@ Proof.
       - rewrite C0, C1. change (tasks s1) with (tasks s). change (numobjs s1) with (numobjs s - 1).
         rewrite !app_length. cbn [length]. lia. }
     assert (R1 : R3 s1) by (apply (R3_same s s1 R); reflexivity).
-    apply QI_bind; [|intros s2 I2 R2; apply IH; assumption].
+    apply QI_bind; [|intros s2 I2 R2 K2; apply IH; assumption].
     destruct (k =? LOCAL_TASK); [apply run_pending_events_QI; assumption|].
-    apply run_script_QI; [apply InvW_emit; [exact I1|discriminate..]|apply R3_emit_plain; [exact R1|exact Logic.I]].
+    apply run_script_QI; [apply InvW_emit; [exact I1|discriminate..]|apply R3_emit_plain; [exact R1|exact Logic.I]|exact K].
 Qed.
 
-Lemma run_tasks_QI : forall s, InvW s -> R3 s -> Q3 s -> QI (run_tasks sc s).
+Lemma run_tasks_QI : forall s, InvW s -> R3 s -> KX (kern s) -> Q3 s -> QI (run_tasks sc s).
 Proof.
-  intros s I R Q. unfold run_tasks. cbv zeta.
+  intros s I R K Q. unfold run_tasks. cbv zeta.
   set (s1 := set_epoch (set_tasks s [] (Some (tasks s))) ((epoch s + 1) mod 4294967296) (tepoch s)).
   destruct Q as (Qb & Qc & Qe).
   assert (C0 : curl s = []) by (unfold curl; rewrite Qc; reflexivity).
   assert (C1 : curl s1 = tasks s) by reflexivity.
   assert (I1 : InvW s1).
   { apply (InvW_tasks_set dok s); try reflexivity; [assumption|constructor; reflexivity| | |].
-    - rewrite C0, C1, app_nil_r. intros k K. exact K.
+    - rewrite C0, C1, app_nil_r. intros k0 K0. exact K0.
     - rewrite C1. pose proof (tk_nodup _ (iw_task _ I)) as ND. rewrite C0, app_nil_r in ND. exact ND.
     - rewrite C0, C1, app_nil_r. reflexivity. }
-  apply tasks_loop_QI; [exact I1|apply (R3_same s s1 R); reflexivity].
+  apply tasks_loop_QI; [exact I1|apply (R3_same s s1 R); reflexivity|exact K].
 Qed.
 End Loop.
